@@ -14,18 +14,27 @@ from props import sess_common as sc
 
 PROP_FILES = ["Props/C02.v"]
 
-def file_session(rng, conf, nops):
-    label, size, fmt = conf
+def file_session(rng, conf, nops, head=None, cluster=None, prefill=0):
     g = sessions.Gen(rng, True, True)
-    toks = fmt.split()
-    bps = 512 if toks[1] == "-" else int(toks[1])
-    g.cluster = bps if toks[3] == "-" else int(toks[3])
-    head = ["dev %d 0" % size, "wlog 0", fmt, "pages", "wlog 1", "mount 1 0 lossy"]
+    if head is None:
+        label, size, fmt = conf
+        toks = fmt.split()
+        bps = 512 if toks[1] == "-" else int(toks[1])
+        g.cluster = bps if toks[3] == "-" else int(toks[3])
+        head = ["dev %d 0" % size, "wlog 0", fmt, "pages", "wlog 1", "mount 1 0 lossy"]
+    else:
+        g.cluster = cluster
     nfiles = rng.range(1, 4)
     for i in range(nfiles):
         h = g.newh(); p = ("f%d.bin" % i,)
         g.files[p] = 0; g.fh[h] = p
         g.emit("create_file 0 %s %d" % (hexs(p[0]), h))
+    if prefill:
+        # the first file takes the clusters in front of the interesting ones; whatever is allocated next continues there
+        h0 = sorted(g.fh)[0]
+        g.emit("write_pat %d %d %d" % (h0, prefill, rng.below(256)))
+        g.emit("write_pat %d %d %d" % (h0, 3 * g.cluster + 1, rng.below(256)))
+        g.emit("seek %d start %d" % (h0, prefill - 1)); g.emit("read %d %d" % (h0, 4 * g.cluster))
     while len(g.lines) < nops:
         if rng.chance(9, 10):
             g.file_op()
@@ -299,6 +308,16 @@ def run(rep, tier, seed):
         if conf[0].startswith("fat32") and tier == "quick" and i % 3:
             conf = confs[1 + rng.below(6)]
         scripts.append(file_session(rng, conf, 40 if tier == "quick" else 80))
+    # volumes of the maximal cluster count of their width on which only the last clusters are free: chains run through the
+    # cluster numbers 0xFF0.. / 0xFFF0.. (ordinary clusters there, "reserved values" in smaller tables)
+    for bits in (12, 16):
+        keep = rng.range(12, 18)
+        t = sessions.topfree_volume(bits, keep=keep)
+        if t is not None:
+            for k in range(2 if tier == "quick" else 12):
+                # 6 clusters carry the numbers 0x..F0-0x..F5: the prefill ends 0-2 clusters in front of them
+                scripts.append(file_session(rng, None, 30 if tier == "quick" else 60, head=t[1], cluster=t[2],
+                                            prefill=(keep - 6 - rng.below(3)) * t[2] - rng.below(2)))
     judged = sessions.run_judged(scripts, flags=("tree",), shards=16)
     boundary = 0
     for jd in judged:
